@@ -26,7 +26,11 @@ RULE = ('Hypothesis: FileSpec (1-5 dims of length 1-5, 1-5 variables of rank '
         'masks bit-identical, attributes equal, dimension lengths = '
         'selection sizes.  Non-trivial: a variable with >=2 selected axes of '
         'different kinds, or negative int, reversed/empty slice, repeated '
-        'list entry, or zipped.  Distinct by sha1 of the case spec.')
+        'list entry, or zipped.  One case in five drives the IOAPI override '
+        'on generated gridded IOAPI files (TSTEP/LAY/ROW/COL selectors, '
+        'uneven and repeated TSTEP lists, zipped ROW+COL): data variables '
+        'and every column of the time-flag variable must hold exactly the '
+        'selected elements.  Distinct by sha1 of the case spec.')
 ASSUMPTIONS = ['numpy basic/take indexing is the reference for orthogonal '
                'selection', 'empty index lists are outside the domain']
 BUDGET = {'quick': dict(examples=3200, max_s=240),
@@ -98,8 +102,49 @@ def cases(draw, tier='quick'):
                 route=route)
 
 
+@st.composite
+def cases_ioapi(draw, tier='quick'):
+    """the IOAPI override of sliceDimensions: gridded in-memory IOAPI files
+    (vf.ioapispec), non-empty selections over TSTEP/LAY/ROW/COL by int, slice
+    or index list (repeats, any order), optionally zipped ROW+COL lists.  The
+    data variables AND the time-flag variable must hold exactly the selected
+    elements."""
+    from .. import ioapispec as IO
+    sp = draw(IO.ioapispecs(routes=('arrays', 'griddesc'), ftypes=(1,)))
+    dlen = dict(TSTEP=sp['nt'], LAY=sp['nz'], ROW=sp['ny'], COL=sp['nx'])
+    names = list(dlen)
+    k = draw(st.integers(1, 4))
+    chosen = draw(st.permutations(names))[:k]
+    if 'TSTEP' not in chosen and draw(st.booleans()):
+        chosen = ['TSTEP'] + list(chosen)[:k - 1] if k > 1 else ['TSTEP']
+    sel = []
+    zipped = set(['ROW', 'COL']) <= set(chosen) and draw(st.integers(0, 3)) == 0
+    npts = draw(st.integers(1, 4))
+    nlists = 0
+    for d in chosen:
+        n = dlen[d]
+        if zipped and d in ('ROW', 'COL'):
+            sel.append([d, 'list', draw(st.lists(st.integers(-n, n - 1),
+                                                 min_size=npts,
+                                                 max_size=npts))])
+            continue
+        allow_list = (nlists == 0 and not zipped) or d == 'TSTEP' and \
+            nlists == 0 and not zipped
+        for _ in range(8):
+            s1 = draw(selectors(n, allow_list=allow_list))
+            if sel_size(n, s1[0], s1[1]) > 0:
+                break
+        else:
+            s1 = ['int', 0]
+        if s1[0] == 'list':
+            nlists += 1
+        sel.append([d] + s1)
+    return dict(ioapi=sp, sel=[list(x) for x in sel], newdims=None)
+
+
 def strategy(tier):
-    return cases(tier)
+    return st.one_of(cases(tier), cases(tier), cases(tier), cases(tier),
+                     cases_ioapi(tier))
 
 
 def enumerate_cases(tier):
@@ -198,7 +243,80 @@ def expected_var(dims, arr, sel, zdims, newdim):
     return tuple(odims), stacked
 
 
+def check_ioapi(case):
+    """IOAPI override: same oracle on the data variables plus the time-flag
+    variable (TSTEP, VAR, DATE-TIME), which must follow the TSTEP selection
+    element for element"""
+    from .. import ioapispec as IO
+    r = Result()
+    sp = case['ioapi']
+    mod = IO.model(sp)
+    f = IO.build(sp)
+    sel = S.OD()
+    for d, kind, val in case['sel']:
+        sel[d] = (kind, val)
+    lists = [d for d, (k, v) in sel.items() if k == 'list']
+    zdims = lists if len(lists) >= 2 else []
+    kw = S.OD((d, to_selector(k, v)) for d, (k, v) in sel.items())
+    r.label('route:ioapi-' + sp['route'])
+    for d, (k, v) in sel.items():
+        r.label('ioapi-sel:%s:%s' % (d, k))
+    if 'TSTEP' in sel and sel['TSTEP'][0] == 'list':
+        v = [x % sp['nt'] for x in sel['TSTEP'][1]]
+        if len(v) > 2 and len(set(np.diff(v))) > 1:
+            r.label('ioapi-tstep-list-uneven')
+    if zdims:
+        r.label('ioapi-zipped-rowcol')
+    r.nontrivial = True
+    ok, out = guard(r, 'ioapi-slice-raises',
+                    lambda: f.sliceDimensions(**kw))
+    if not ok:
+        return r
+    for msg in S.wellformed(out, 'result'):
+        r.fail('ioapi-result-malformed', msg)
+    if r.failures:
+        return r
+    dims = list(IO.STD_DIMS[1])
+    for name in mod.varnames:
+        data = mod.data(name)
+        odims, edata = expected_var(dims, data, sel, zdims, 'POINTS')
+        if name not in out.variables:
+            r.fail('ioapi-var-missing', 'variable %s missing' % name)
+            continue
+        ov = out.variables[name]
+        if tuple(ov.dimensions) != tuple(odims):
+            r.fail('ioapi-var-dims', 'variable %s has dimensions %r, '
+                   'expected %r' % (name, tuple(ov.dimensions), odims))
+            continue
+        msg = S.cmp_array(ov, edata, 'variable %s%r' % (name, tuple(dims)),
+                          bits=True, check_dtype=False)
+        if msg:
+            r.fail('ioapi-var-data', msg)
+    # time flags: rows follow the TSTEP selection exactly
+    if 'TFLAG' in out.variables:
+        tf = np.asarray(out.variables['TFLAG'][...])
+        exp = mod.tflag
+        if 'TSTEP' in sel:
+            exp = ortho(exp, 0, *sel['TSTEP'])
+        if tf.ndim != 3 or tf.shape[0] != exp.shape[0] or tf.shape[2] != 2:
+            r.fail('ioapi-tflag-shape', 'TFLAG shape %r, expected (%d, *, 2)'
+                   % (tf.shape, exp.shape[0]))
+        else:
+            for vi in range(tf.shape[1]):
+                if not np.array_equal(tf[:, vi, :].astype('i8'), exp):
+                    r.fail('ioapi-tflag-rows', 'TFLAG[:, %d] = %s, the '
+                           'selected steps are %s' % (
+                               vi, tf[:, vi, :].tolist(), exp.tolist()),
+                           klass=sel.get('TSTEP', ('none',))[0])
+                    break
+    else:
+        r.fail('ioapi-tflag-missing', 'result has no TFLAG')
+    return r
+
+
 def check_case(case):
+    if 'ioapi' in case:
+        return check_ioapi(case)
     r = Result()
     fs = case['file']
     m = S.model_of(fs)
